@@ -109,13 +109,14 @@ def t_update(ex):
     def m_open(it_, p, mode="r", *a):
         if "w" in mode or "a" in mode:
             it.trace.append(Effect("open_for_writing_in_place", path=p))
-            raise OutOfSubset("in-place write of the Manifest")
+            raise PyRaise(OSError(28, "ghost: disk full while writing in place"))
         reads.append(p)
         if old is None:
             raise PyRaise(FileNotFoundError(2, "no Manifest"))
         return RHandle()
     it.models[builtins.open] = m_open
-    it.models[D.AtomicWriteFile] = awf_contract(faults=True, ctor_faults=True)
+    if hasattr(D, "AtomicWriteFile"):
+        it.models[D.AtomicWriteFile] = awf_contract(faults=True, ctor_faults=True)
     me = SObj(D.Manifest, {"path": path, "thin": thin, "allow_missing": False, "_gpg": False, "_sourced": True})
     out = call(it, it.target(DG, "Manifest.update"), me, fetch)
     tr = it.trace
@@ -212,12 +213,12 @@ def enum_manifests(seed):
                     before = open(mpath).read()
                     open(os.path.join(d, "pkg-1.ebuild"), "a").write("changed")
                     cases += 1
-                    real_open, real_awf = open, digest.AtomicWriteFile
-
-                    class Boom(real_awf):
-                        def close(self):   # the process dies after writing, before the file is committed
-                            raise _Stop()
-                    digest.AtomicWriteFile = Boom
+                    real_open, real_awf = open, getattr(digest, "AtomicWriteFile", None)
+                    if real_awf is not None:
+                        class Boom(real_awf):
+                            def close(self):   # the process dies after writing, before the file is committed
+                                raise _Stop()
+                        digest.AtomicWriteFile = Boom
                     import builtins
                     def guarded_open(p, mode="r", *a, **k):
                         if os.path.abspath(p) == mpath and ("w" in mode or "a" in mode):
@@ -232,7 +233,8 @@ def enum_manifests(seed):
                     except _Stop:
                         pass
                     finally:
-                        digest.AtomicWriteFile = real_awf
+                        if real_awf is not None:
+                            digest.AtomicWriteFile = real_awf
                         del digest.open
                     after = open(mpath).read()
                     if after != before and not thin:
